@@ -78,8 +78,19 @@ def oracle(desc, data):
     if enc2.uses_cwt_payload and alt == data:
         return [(KNOWN_F7B, "COSE_Sign1 CWT payload emitted as inline map instead of bstr (only difference)")]
     try:
-        where = mcbor.diff_path(mcbor.decode(data), mcbor.decode(alt if enc2.uses_cwt_payload else ref))
-    except (mcbor.CBORError, RecursionError) as e:
+        other = alt if enc2.uses_cwt_payload else ref
+        a, b = mcbor.decode(data), mcbor.decode(other)
+        where = None
+        # report the manifest (and the other members) before the wrapper, whose digest differs as a consequence
+        if a.mt == 6 and b.mt == 6 and a.items[0].mt == 5 and b.items[0].mt == 5:
+            ka, kb = a.items[0].keys(), b.items[0].keys()
+            if ka == kb:
+                for key in [k for k in ka if k != 2] + [2]:
+                    where = mcbor.diff_path(a.items[0].get(key), b.items[0].get(key), f"$[{key!r}]")
+                    if where:
+                        break
+        where = where or mcbor.diff_path(a, b)
+    except (mcbor.CBORError, RecursionError, AttributeError) as e:
         where = f"tool output is not well-formed CBOR: {e}"
     return [("wire-format-mismatch", f"create(d) != reference encoding; first difference at {where}")]
 
